@@ -251,6 +251,25 @@ def encodeSOSHeader (e : Encoder) (out : Array Nat) : Array Nat :=
     else #[0xFF, 0xDA, 0x00, 0x0C, 0x03, 0x01, 0x00, 0x02, 0x11, 0x03, 0x11, 0x00, 0x3F, 0x00]
   copyInto out s
 
+/-- the second half of `Encoder.Reset` (after the quantisation tables are installed): set the
+    fields, emit SOI, DQT, SOF0, DHT and the SOS header, write them. -/
+def resetFinish (e : Encoder) (wfail : Bool) (colorType : Nat) (width height : Int) : Encoder × Res :=
+  let n : Nat :=
+    if colorType ≠ colorTypeYCbCr420
+    then (((width + 7) / 8).toNat % 4294967296) * (((height + 7) / 8).toNat % 4294967296) % 4294967296
+    else (((width + 15) / 16).toNat % 4294967296) * (((height + 15) / 16).toNat % 4294967296) % 4294967296
+  let e := { e with hasReturnedError := false, colorType := colorType,
+                    prevDC0 := 0, prevDC1 := 0, prevDC2 := 0,
+                    numAddsRemaining := n, bitsV := 0, bitsN := 0 }
+  let out : Array Nat := #[0xFF, 0xD8]
+  let out := encodeDQT e out
+  let out := encodeSOF0 e out width height
+  let out := encodeDHT e out
+  let out := encodeSOSHeader e out
+  if out.size > bufLen then (e, .panic)
+  else if wfail then ({ e with hasReturnedError := true }, .err .write)
+  else (e, .ok out)
+
 /-- `Encoder.Reset`.  `colorType` is a byte; `width`, `height` are Go ints;
     `quants = none` is `options == nil || options.QuantizationFactors == nil`. -/
 def reset (e : Encoder) (wfail : Bool) (colorType : Nat) (width height : Int)
@@ -258,30 +277,13 @@ def reset (e : Encoder) (wfail : Bool) (colorType : Nat) (width height : Int)
   if width ≤ 0 || 0xFFFF < width || height ≤ 0 || 0xFFFF < height || !colorTypeIsValid colorType then
     ({ e with hasReturnedError := true }, .err .badArgument)
   else
-    let eq : Option Encoder :=
-      match quants with
-      | none => some { e with quants0 := setToStandardValues 0 defaultQuality,
-                              quants1 := setToStandardValues 1 defaultQuality }
-      | some (q0, q1) =>
-        if !quantIsValid q0 || !quantIsValid q1 then none
-        else some { e with quants0 := q0, quants1 := q1 }
-    match eq with
-    | none => ({ e with hasReturnedError := true }, .err .badArgument)
-    | some e =>
-      let n : Nat :=
-        if colorType ≠ colorTypeYCbCr420
-        then (((width + 7) / 8).toNat % 4294967296) * (((height + 7) / 8).toNat % 4294967296) % 4294967296
-        else (((width + 15) / 16).toNat % 4294967296) * (((height + 15) / 16).toNat % 4294967296) % 4294967296
-      let e := { e with hasReturnedError := false, colorType := colorType,
-                        prevDC0 := 0, prevDC1 := 0, prevDC2 := 0,
-                        numAddsRemaining := n, bitsV := 0, bitsN := 0 }
-      let out : Array Nat := #[0xFF, 0xD8]
-      let out := encodeDQT e out
-      let out := encodeSOF0 e out width height
-      let out := encodeDHT e out
-      let out := encodeSOSHeader e out
-      if out.size > bufLen then (e, .panic)
-      else if wfail then ({ e with hasReturnedError := true }, .err .write)
-      else (e, .ok out)
+    match quants with
+    | none =>
+      resetFinish { e with quants0 := setToStandardValues 0 defaultQuality,
+                           quants1 := setToStandardValues 1 defaultQuality } wfail colorType width height
+    | some (q0, q1) =>
+      if !quantIsValid q0 || !quantIsValid q1 then
+        ({ e with hasReturnedError := true }, .err .badArgument)
+      else resetFinish { e with quants0 := q0, quants1 := q1 } wfail colorType width height
 
 end WuffsVerif.Jpeg
